@@ -391,9 +391,25 @@ def extra(ctx, uberjob):
     class BadStr(Exception):
         def __str__(self):
             raise RuntimeError("str of the exception fails")
-    for exc in (FalsyError("f"), DataError([1]), BadStr("b")):
+    # ... and so is a call that fails with one of the library's OWN exception types: a nested uberjob.run that failed (CallError),
+    # a HasACycle from building / running an inner plan
+    import networkx as _nx
+
+    def inner_failing_run():
+        ip = uberjob.Plan()
+        uberjob.run(ip, output=ip.call(lambda: 1 // 0), progress=None)
+
+    def nested_call_error():
+        try:
+            inner_failing_run()
+        except uberjob.CallError as e:
+            return e
+    NESTED = "a nested uberjob.run fails inside the call"
+    for exc in (FalsyError("f"), DataError([1]), BadStr("b"), nested_call_error(), _nx.HasACycle("inner"), NESTED):
         for workers, max_errors in ((1, 0), (3, None)):
             def bad(exc=exc):
+                if exc is NESTED:
+                    inner_failing_run()
                 raise exc
             plan = uberjob.Plan()
             with plan.scope("bad"):
@@ -404,16 +420,16 @@ def extra(ctx, uberjob):
                 uberjob.run(plan, output=[b_, g_], progress=prog, max_workers=workers, max_errors=max_errors)
                 oc = "returned"
             except uberjob.CallError as e:
-                oc = "callerror" if e.__cause__ is exc else "callerror with another cause"
+                oc = "callerror" if (e.__cause__ is exc or (exc is NESTED and isinstance(e.__cause__, uberjob.CallError))) else "callerror with another cause"
             except BaseException as e:      # noqa
                 oc = "raised %s" % type(e).__name__
             seq = prog.made[0].seq if prog.made else []
             d = py_wf(seq)
             nfailed = sum(1 for e in seq if e[0] == "failed")
-            ctx.case(("c15-unusual-exception", type(exc).__name__, workers, max_errors))
+            ctx.case(("c15-unusual-exception", exc if exc is NESTED else type(exc).__name__, workers, max_errors))
             if d or nfailed != 1 or oc != "callerror":
                 ctx.fail("unusual-exception:account", "a call raising a %s object: %s; %d failed notification(s); run %s"
-                         % (type(exc).__name__, d or "account well-formed", nfailed, oc), {"exception": type(exc).__name__, "max_workers": workers,
+                         % (exc if exc is NESTED else type(exc).__name__, d or "account well-formed", nfailed, oc), {"exception": exc if exc is NESTED else type(exc).__name__, "max_workers": workers,
                                                                                       "notifications": [repr(e) for e in seq[:30]]})
     # (g) an observer is an ordinary object: it may define __len__ / __bool__ (a recorder that reports how many events it holds)
     # and be falsy - it still receives the whole account
